@@ -93,6 +93,7 @@ func genQueueCase(t *rapid.T) QueueCase {
 	}
 	if rapid.IntRange(0, 3).Draw(t, "fail?") == 0 {
 		c.FailAt = rapid.IntRange(0, total).Draw(t, "fail_at")
+		c.ErrWorkUS = rapid.SampledFrom([]int{0, 50, 300, 2000}).Draw(t, "err_work_us")
 	}
 	nw := rapid.IntRange(0, 4).Draw(t, "nwork")
 	for i := 0; i < nw; i++ {
@@ -105,7 +106,7 @@ func genQueueCase(t *rapid.T) QueueCase {
 func TestC16Queue(t *testing.T) {
 	rapid.Check(t, func(rt *rapid.T) {
 		c := genQueueCase(rt)
-		st, err := runQueue(c)
+		st, err := pbt.Safe(runQueue, c)
 		if st == nil {
 			st = &queueStats{}
 		}
